@@ -258,13 +258,16 @@ struct RI {
 /// "No limit" spelled as a huge limit_for_period: the limiter must be constructible and admit everybody.
 fn extreme_limit(which: &str, sseed: u64) -> Report {
     let mut rng = Prng::new(sseed);
-    let l = *rng.pick(&[usize::MAX, usize::MAX / 2, usize::MAX - 1]);
+    // C15 quantifies over all limits: "no permits at all" (0) is the other extreme, every call must
+    // be rejected (C02 asks for limit_for_period >= 1)
+    let l = if which == "C15" { *rng.pick(&[usize::MAX, usize::MAX / 2, usize::MAX - 1, 0, 0]) } else { *rng.pick(&[usize::MAX, usize::MAX / 2, usize::MAX - 1]) };
+    let to_ms = if l == 0 { *rng.pick(&[0u64, 0, 20, 120]) } else { 0 };
     let (win, wname) = *rng.pick(&[(WindowType::Fixed, "fixed"), (WindowType::SlidingLog, "log"), (WindowType::SlidingCounter, "counter")]);
     let mut rep = Report::default();
     let r = std::panic::catch_unwind(|| {
         run_sim(sseed, |sim| {
             let w = sim.w.clone();
-            let layer = RateLimiterLayer::builder().limit_for_period(l).refresh_period(Duration::from_millis(50)).timeout_duration(Duration::ZERO).window_type(win).build();
+            let layer = RateLimiterLayer::builder().limit_for_period(l).refresh_period(Duration::from_millis(50)).timeout_duration(Duration::from_millis(to_ms)).window_type(win).build();
             let svc = layer.layer(w.probe(1));
             for i in 0..6u64 {
                 let req = Req::new(i + 1, 0, vec![Step::ok(Lat::Us(0))]);
@@ -282,7 +285,11 @@ fn extreme_limit(which: &str, sseed: u64) -> Report {
         Ok((w, _, ())) => {
             let log = w.take_log();
             let entered = log.iter().filter(|r| matches!(r.ev, Ev::InnerEnter { .. })).count();
-            if entered != 6 {
+            if l == 0 {
+                if entered != 0 {
+                    rep.violate(format!("{which}:{wname}:admitted-with-limit-zero"), format!("rate limiter with limit_for_period=0, timeout {to_ms}ms: {entered} of 6 calls reached the wrapped service"));
+                }
+            } else if entered != 6 {
                 rep.violate(format!("{which}:{wname}:extreme-limit-not-admitted"), format!("rate limiter with limit_for_period={l}: {entered} of 6 calls were admitted"));
             }
             rep.log = log;
@@ -291,7 +298,7 @@ fn extreme_limit(which: &str, sseed: u64) -> Report {
     rep.nontrivial = true;
     rep.sig = crate::prng::mix(l as u64, wname.len() as u64);
     rep.count("extreme_limit_scenarios", 1);
-    rep.case = json!({"limit_for_period": l.to_string(), "window": wname});
+    rep.case = json!({"limit_for_period": l.to_string(), "window": wname, "timeout_ms": to_ms});
     rep
 }
 
